@@ -534,7 +534,48 @@ Thread text.
     Thread chosen.
     ~ x = x + 1000
     -> fin
+=== function ptext(a) ===
+Alpha {a}
+<> beta
+gamma {fn(a)}
+~ return a * 2
+=== function pnest(a) ===
+~ return fn(fn(a)) + pdepth(2)
+=== function pdepth(n) ===
+{ n <= 0:
+    ~ return 0
+}
+~ return 1 + pdepth(n - 1)
+=== function pstr(t) ===
+~ return t + "!"
+=== function pbool(b) ===
+~ return not b
+=== function pfloat(f) ===
+~ return f * 2
+=== function pread() ===
+~ return x + y
 "#;
+
+/// Pure functions of the pool programs with the arguments the host passes (C16) and, where it
+/// was worked out by hand from the Ink rules, the expected result ("ok:<value>:<text>").
+pub fn pure_function_calls() -> Vec<(&'static str, Vec<crate::inst::Val>, Option<&'static str>)> {
+    use crate::inst::Val::*;
+    vec![
+        ("fn", vec![Int(3)], Some("ok:Int(4):\"\"")),
+        ("ptext", vec![Int(2)], Some("ok:Int(4):\"Alpha 2 beta\\ngamma 3\\n\"")),
+        ("pnest", vec![Int(1)], Some("ok:Int(5):\"\"")),
+        ("pstr", vec![Str("q".into())], Some("ok:Str(\"q!\"):\"\"")),
+        ("pbool", vec![Bool(true)], Some("ok:Bool(false):\"\"")),
+        ("pfloat", vec![Float(1.5)], Some("ok:Float(3.0):\"\"")),
+        ("pread", vec![], None),
+        ("add", vec![Int(1), Int(2)], Some("ok:Int(3):\"\"")),
+        ("say", vec![Str("x".into())], Some("ok:None:\"said x\\n\"")),
+        ("fact", vec![Int(4)], Some("ok:Int(24):\"\"")),
+        ("val", vec![], Some("ok:Int(4):\"\"")),
+        ("can", vec![], None),
+        ("lbl", vec![Int(1)], Some("ok:None:\"L1\\n\"")),
+    ]
+}
 
 /// number of programs in the segment family with `k` slots over the first `a` segments
 pub fn seg_count(k: usize, a: usize) -> usize {
